@@ -541,8 +541,9 @@ func drainC09(w *mc.Worker, s *scenario, dir string, trace []string, x *exec, po
 		}
 	}
 	for _, c := range x.w.old {
-		// earlier incarnations that were never removed
-		if c.life == lifeStopped {
+		// earlier incarnations that were never removed (stopped, or refused at creation: the runtime undoes a failed
+		// creation with stop + remove events)
+		if c.life == lifeStopped || c.life == lifeFailed {
 			oc := c
 			rp := &reply{ev: "remove:" + oc.id()}
 			x.last = rp
@@ -743,7 +744,9 @@ func oracleC02(x *exec, v *viols, pre, post *snap, rp *reply) {
 				v.add("shared-idle-missing", "shared-idle-missing:"+strings.Split(rp.ev, ":")[0], "after %s balloon %s (cpus %s, shares idle CPUs in same %s) lacks idle CPUs %s in its shared set %s", rp.ev, b.Name, b.Cpus, b.ShareIdle, missing, sh)
 			}
 			if extra := sh.Difference(x.scopeCPUs(b.ShareIdle, bc)); !extra.IsEmpty() && !bc.IsEmpty() {
-				v.add("shared-idle-outside-scope", "shared-idle-outside-scope:"+strings.Split(rp.ev, ":")[0], "after %s balloon %s (cpus %s) shares idle CPUs %s outside its %s scope", rp.ev, b.Name, b.Cpus, extra, b.ShareIdle)
+				// Not a violation: the property bounds the shared idle set from below only ("include every idle CPU in
+				// the scope"). A balloon that shrank keeps idle CPUs of a scope it no longer touches; counted, not judged.
+				verifCounters["c02_shared_idle_beyond_current_scope"]++
 			}
 		}
 		// limits
